@@ -221,11 +221,28 @@ pub fn panic_site(p: &PanicInfo) -> String {
 // ------------------------------------------------------------------------------------------------
 // child side
 
+/// The fd the child speaks its protocol on. The library under test (and its dependencies) may print to
+/// stdout (plus_operation has a leftover `println!("controller: ..")`), so at start-up the child moves the
+/// pipe to a private descriptor and points fd 1 at stderr.
+static PROTO_FD: std::sync::atomic::AtomicI32 = std::sync::atomic::AtomicI32::new(1);
+
+pub fn isolate_protocol_fd() {
+  unsafe {
+    let fd = libc::dup(1);
+    if fd >= 0 {
+      libc::fcntl(fd, libc::F_SETFD, libc::FD_CLOEXEC);
+      libc::dup2(2, 1);
+      PROTO_FD.store(fd, Ordering::SeqCst);
+    }
+  }
+}
+
 fn raw_out(s: &str) {
   let b = s.as_bytes();
   let mut off = 0;
+  let fd = PROTO_FD.load(Ordering::SeqCst);
   while off < b.len() {
-    let n = unsafe { libc::write(1, b[off..].as_ptr() as *const libc::c_void, b.len() - off) };
+    let n = unsafe { libc::write(fd, b[off..].as_ptr() as *const libc::c_void, b.len() - off) };
     if n <= 0 {
       // supervisor went away
       unsafe { libc::_exit(4) };
@@ -281,6 +298,7 @@ pub fn child_runs(
   sample_below: u64,
 ) -> ! {
   install_panic_hook();
+  isolate_protocol_fd();
   if let Some(f) = check.zygote_eval() {
     crate::zygote::start(f);
   }
@@ -360,6 +378,7 @@ pub fn child_runs(
 /// Entry of `sim exec <check> <worldfile> <watchdog_s>`: executes one explicit world.
 pub fn child_exec(check: &'static dyn Check, world: Value, watchdog_s: u64) -> ! {
   install_panic_hook();
+  isolate_protocol_fd();
   if let Some(f) = check.zygote_eval() {
     crate::zygote::start(f);
   }
